@@ -449,3 +449,85 @@ pub fn collision_shape_pairs() -> Vec<(Vec<usize>, Vec<usize>)> {
 /// values that survive a narrowing cast to u8 / u16 / u32 as `c`: `c + 2^8`, `c + 2^16`, `c + 2^32` (an index or coordinate check done
 /// on a narrowed value accepts them)
 pub fn narrowing_images(c: usize) -> Vec<usize> { vec![c + (1 << 8), c + (1 << 16), c + (1usize << 32), c + (1usize << 32) * 3] }
+
+// ---------------------------------------------------------------- robustness streams, part 3 (after the fourth round of seeded changes)
+
+/// Element types with UNUSUAL LAYOUT for value-blind (`T: ArrayElement`) operations: `Tuple3<i32,i32,i32>` is 12 bytes and
+/// `Tuple3<u8,u8,u8>` 3 bytes (not powers of two: tiles of `64 / size_of::<T>()` elements are then not powers of two either),
+/// `Tuple2<String,i32>` is 32 bytes wide and not `Copy` (paths chosen by `size_of::<T>() > 24`, clone-heavy paths).
+pub type T3 = Tuple3<i32, i32, i32>;
+pub type T3b = Tuple3<u8, u8, u8>;
+pub type TW = Tuple2<String, i32>;
+pub fn tag_t3(t: i64) -> T3 { Tuple3(t as i32, (t as i32).wrapping_neg(), (t as i32) ^ 0x55) }
+pub fn tag_t3b(t: i64) -> T3b { let u = tag_u8(t); Tuple3(u, u.wrapping_add(1), !u) }
+pub fn tag_tw(t: i64) -> TW { Tuple2(format!("s{t}"), t as i32) }
+pub fn parse_arr_t3(s: &str) -> Array<T3> { let (sh, e) = parse_arr_raw(s); Array::new(e.into_iter().map(tag_t3).collect(), sh).expect("harness: array literal") }
+pub fn parse_arr_t3b(s: &str) -> Array<T3b> { let (sh, e) = parse_arr_raw(s); Array::new(e.into_iter().map(tag_t3b).collect(), sh).expect("harness: array literal") }
+pub fn parse_arr_tw(s: &str) -> Array<TW> { let (sh, e) = parse_arr_raw(s); Array::new(e.into_iter().map(tag_tw).collect(), sh).expect("harness: array literal") }
+
+/// compare the i64-tag answer of a value-blind operation with the answers of the same call on the three odd-layout element types
+pub fn cross_layout_arr(ri: &Result<Array<i64>, ArrayError>, r3: &Result<Array<T3>, ArrayError>, r3b: &Result<Array<T3b>, ArrayError>, rw: &Result<Array<TW>, ArrayError>) -> Option<String> {
+    if !same_class(ri, r3) || !same_class(ri, r3b) || !same_class(ri, rw) { return Some("a 12-byte / 3-byte / 32-byte element type gives a different outcome class".into()); }
+    if let (Ok(i), Ok(a), Ok(b), Ok(w)) = (ri, r3, r3b, rw) {
+        let ei = i.get_elements().unwrap();
+        let sh = i.get_shape().unwrap();
+        if a.get_shape().unwrap() != sh || b.get_shape().unwrap() != sh || w.get_shape().unwrap() != sh { return Some("an odd-layout element type gives another result shape".into()); }
+        let (ea, eb, ew) = (a.get_elements().unwrap(), b.get_elements().unwrap(), w.get_elements().unwrap());
+        if ea.len() != ei.len() || eb.len() != ei.len() || ew.len() != ei.len() { return Some("an odd-layout element type gives another element count".into()); }
+        for p in 0..ei.len() {
+            if ea[p] != tag_t3(ei[p]) { return Some(format!("Tuple3<i32,i32,i32> (12 bytes) run differs at flat position {p}: {:?} instead of {:?}", ea[p], tag_t3(ei[p]))); }
+            if eb[p] != tag_t3b(ei[p]) { return Some(format!("Tuple3<u8,u8,u8> (3 bytes) run differs at flat position {p}: {:?} instead of {:?}", eb[p], tag_t3b(ei[p]))); }
+            if ew[p] != tag_tw(ei[p]) { return Some(format!("Tuple2<String,i32> (32 bytes) run differs at flat position {p}: {:?} instead of {:?}", ew[p], tag_tw(ei[p]))); }
+        }
+    }
+    None
+}
+pub fn cross_layout_list(ri: &Result<Vec<Array<i64>>, ArrayError>, r3: &Result<Vec<Array<T3>>, ArrayError>, r3b: &Result<Vec<Array<T3b>>, ArrayError>, rw: &Result<Vec<Array<TW>>, ArrayError>) -> Option<String> {
+    if !same_class(ri, r3) || !same_class(ri, r3b) || !same_class(ri, rw) { return Some("a 12-byte / 3-byte / 32-byte element type gives a different outcome class".into()); }
+    if let (Ok(i), Ok(a), Ok(b), Ok(w)) = (ri, r3, r3b, rw) {
+        if a.len() != i.len() || b.len() != i.len() || w.len() != i.len() { return Some("an odd-layout element type gives a different number of pieces".into()); }
+        for k in 0..i.len() { if let Some(d) = cross_layout_arr(&Ok(i[k].clone()), &Ok(a[k].clone()), &Ok(b[k].clone()), &Ok(w[k].clone())) { return Some(format!("piece {k}: {d}")); } }
+    }
+    None
+}
+/// Run `$body` (generic in the element type, `T: ArrayElement` only) on the i64 tags and on the three odd-layout types; evaluates to the
+/// canonical i64 answer text or to a `LAYOUT-DIVERGENCE …` text (which fails the comparison with the model).
+#[macro_export]
+macro_rules! on_layouts_arr {
+    ($src:expr, |$a:ident| $body:expr) => {{
+        let run_i = || { let $a = $crate::parse_arr_i64($src); std::panic::catch_unwind(std::panic::AssertUnwindSafe(|| $body)) };
+        let run_3 = || { let $a = $crate::parse_arr_t3($src); std::panic::catch_unwind(std::panic::AssertUnwindSafe(|| $body)) };
+        let run_b = || { let $a = $crate::parse_arr_t3b($src); std::panic::catch_unwind(std::panic::AssertUnwindSafe(|| $body)) };
+        let run_w = || { let $a = $crate::parse_arr_tw($src); std::panic::catch_unwind(std::panic::AssertUnwindSafe(|| $body)) };
+        match (run_i(), run_3(), run_b(), run_w()) {
+            (Ok(ri), Ok(r3), Ok(rb), Ok(rw)) => match $crate::cross_layout_arr(&ri, &r3, &rb, &rw) { None => $crate::res_arr(&ri), Some(d) => format!("LAYOUT-DIVERGENCE {d}; i64 run: {}", $crate::res_arr(&ri)) },
+            (Err(_), Err(_), Err(_), Err(_)) => "panic".to_string(),
+            (ri, r3, rb, rw) => format!("LAYOUT-DIVERGENCE panic only for some element types (i64 {}, 12-byte {}, 3-byte {}, 32-byte {})", ri.is_err(), r3.is_err(), rb.is_err(), rw.is_err()),
+        }
+    }};
+}
+#[macro_export]
+macro_rules! on_layouts_list {
+    ($src:expr, |$a:ident| $body:expr) => {{
+        let run_i = || { let $a = $crate::parse_arr_i64($src); std::panic::catch_unwind(std::panic::AssertUnwindSafe(|| $body)) };
+        let run_3 = || { let $a = $crate::parse_arr_t3($src); std::panic::catch_unwind(std::panic::AssertUnwindSafe(|| $body)) };
+        let run_b = || { let $a = $crate::parse_arr_t3b($src); std::panic::catch_unwind(std::panic::AssertUnwindSafe(|| $body)) };
+        let run_w = || { let $a = $crate::parse_arr_tw($src); std::panic::catch_unwind(std::panic::AssertUnwindSafe(|| $body)) };
+        match (run_i(), run_3(), run_b(), run_w()) {
+            (Ok(ri), Ok(r3), Ok(rb), Ok(rw)) => match $crate::cross_layout_list(&ri, &r3, &rb, &rw) { None => $crate::res_arr_list(&ri), Some(d) => format!("LAYOUT-DIVERGENCE {d}; i64 run: {}", $crate::res_arr_list(&ri)) },
+            (Err(_), Err(_), Err(_), Err(_)) => "panic".to_string(),
+            (ri, r3, rb, rw) => format!("LAYOUT-DIVERGENCE panic only for some element types (i64 {}, 12-byte {}, 3-byte {}, 32-byte {})", ri.is_err(), r3.is_err(), rb.is_err(), rw.is_err()),
+        }
+    }};
+}
+
+/// shapes with 2^20 < count <= ~2.2·10^6 (blocked / tiled / strided paths that only start at a million elements; extents that are
+/// not multiples of 64; a stretched axis above a kept axis above a stretched axis; a middle axis with product > 1 on both sides).
+/// Only for operations with a harness-native reference oracle (validated against the model on the smaller cases of the same run):
+/// the arrays are built from the shape by the harness (`iota_tags`), never written into a case line.
+pub fn giant_shapes() -> Vec<Vec<usize>> {
+    vec![vec![1 << 20 | 5], vec![3, 400_001], vec![400_001, 3], vec![1031, 1033], vec![2, 131_073, 4], vec![5, 70_000, 4], vec![600, 2, 1000],
+         vec![2, 3, 174_763], vec![65, 129, 127], vec![2_097_153]]
+}
+/// a case line names a giant array as `iota:<shape>`: element k of the flat data is the tag k (as i64)
+pub fn iota_tags(shape: &[usize]) -> Array<i64> { let n: usize = shape.iter().product(); Array::new((0..n as i64).collect(), shape.to_vec()).expect("harness: iota array") }
